@@ -86,7 +86,7 @@ PROPS["C01"] = {
 PROPS["C02"] = {
     "module": "CqlVerif.Props.C02",
     "gens": ["policy"],
-    "streams": [CORE_STREAM, STORM_STREAM, {"name": "late", "quick": 40, "thorough": 3000}],
+    "streams": [CORE_STREAM, STORM_STREAM, {"name": "late", "quick": 40, "thorough": 3000}, {"name": "bytes", "quick": 300, "thorough": 20000}],
     "shrink": False,
     "claim": "Lean theorems streams_partition, wire_matches_pending and route_correct over Model/Core for all interleavings, stream-id choices, recycling and exhaustion; tied to the code by the core and storm e2e streams (tokens echoed by the backends, Routed oracle) and by the late stream (one backend connection over histories of thousands of requests: internal requests abandoned by their caller and answered late while the 2048 stream ids are recycled)",
     "note": "trusted: Lean kernel, hand-written model + e2e correspondence; sync.Map/channel linearizability assumed; backends that answer a stream twice are C17's subject",
@@ -141,7 +141,7 @@ PROPS["C07"] = {
 
 PROPS["C16"] = {
     "module": "CqlVerif.Props.C16",
-    "streams": [{"name": "reconn", "quick": 2000, "thorough": 200000}, {"name": "topo", "quick": 150, "thorough": 5000, "timeout": 7200}],
+    "streams": [{"name": "reconn", "quick": 2000, "thorough": 200000}, {"name": "topo", "quick": 150, "thorough": 5000, "timeout": 7200}, RETRY_STREAM],
     "shrink": False,
     "claim": "Lean theorems delay_bounds (all base/max with 0<base<=max, base<2^44 ns, all attempt counts and jitters, Go int64 wrap-around modelled) + overflow_witness for the excluded range, reset_restarts, views_agree / refresh_follows_peers (cluster view, load balancer and session pools equal the last peers table for every refresh / fail-over history), outage_iff_not_connected; tied to reconnpolicy.go by a differential stream on the public API and to cluster.go/session.go/lb.go by the topo stream (real Cluster+LB+Session wired as Proxy.Connect, 40 ms refresh window, fakecass membership changes, child process so listener crashes are observed)",
     "note": "trusted: Lean kernel, hand-written models + correspondence; timers are real-time in the tie (generous margins) and event order in the model; heartbeat/idle-timeout detection, readiness endpoint and pooled-connection reconnection are exercised by the storm/e2e streams only; negative base delays are outside (delay_bounds hypothesis)",
